@@ -21,6 +21,8 @@ def _produce(name, case_id):
     v = T.get(case_id)
     if isinstance(v, BaseException):
         raise v
+    if isinstance(v, tuple) and v and v[0] == "__raise__":
+        raise v[1](*v[2])
     if callable(v):
         return v()
     return v
@@ -39,3 +41,71 @@ def produce2(case_id):
 @m.memento_function(cluster="c", version="p1")
 def cproduce(case_id):
     return _produce("cproduce", case_id)
+
+
+# ---- exception classes for C02 -------------------------------------------------------------
+class CustomError(Exception):
+    """Importable, one-argument: can be rebuilt from its message."""
+
+
+class CustomOptional(Exception):
+    def __init__(self, message="dflt", code=7):
+        super().__init__(message)
+        self.code = code
+
+
+class TwoArgs(Exception):
+    """Needs two arguments: cannot be rebuilt from a message alone."""
+
+    def __init__(self, a, b):
+        super().__init__("%s/%s" % (a, b))
+
+
+class Picky(Exception):
+    """One argument, but the constructor rejects anything that is not a number."""
+
+    def __init__(self, n):
+        super().__init__(str(int(n)))
+
+
+class Outer:
+    class Nested(Exception):
+        """Importable through a dotted qualified name."""
+
+
+def local_class():
+    class LocalError(Exception):
+        """Defined inside a function: cannot be found again by name."""
+
+    return LocalError
+
+
+from twosigma.memento.exception import NonMemoizedException  # noqa: E402
+
+
+class Transient(NonMemoizedException):
+    """Marked as not-to-be-memoized."""
+
+
+# ---- partition chains for C17 ---------------------------------------------------------------
+def _build_level(spec):
+    from twosigma.memento.partition import InMemoryPartition
+    from twosigma.memento.storage_filesystem import OnDiskPartition
+
+    d = spec["make"]()
+    if spec["kind"] == "mem":
+        return InMemoryPartition(d)
+    p = OnDiskPartition()
+    for k, v in d.items():
+        p[k] = v
+    return p
+
+
+@m.memento_function(version="c1")
+def chain(chain_id, level):
+    REC.hit("chain", chain_id, level)
+    spec = T.get(chain_id)
+    part = _build_level(spec[level])
+    if level > 0:
+        part._merge_parent = chain(chain_id, level - 1)
+    return part
